@@ -24,7 +24,9 @@ RULE += (
     "suspended on a batch item (the next call must recompute). Per-instance histories also ask for the same "
     "key twice in one yield (both bodies run, each call gets its own result) and for two keys of which one "
     "body raises; lru_method histories drop instances and create them anew; lazy-constant histories contain a "
-    "second race (a refresh overtaken by dirty() finishing after the recomputation)."
+    "second race (a refresh overtaken by dirty() finishing after the recomputation). 30% of the histories of "
+    "lru_fn / lru_method / per_instance use a signature whose first parameter is positional-only; pair_fail "
+    "steps also make BOTH bodies fail (each call must end with its own body's exception)."
 )
 ASSUMPTIONS = [
     "calls of one history are sequential (each completes before the next), except the explicit steps that put several calls in flight at once (two keys on the per-instance cache; 2-5 calls incl. repeated keys on the LRU caches, where the model stores results in the observed completion order)",
